@@ -6,7 +6,7 @@
    as concrete witnesses. *)
 From Coq Require Import ZArith List Bool.
 From NV Require Import Base.Result Base.Bytes Model.Pdu Model.DepDecode Model.T3Emu Model.Pax Model.Dispatch Model.SnepHdr
-  Proofs.PduTotal Proofs.RobustDep Proofs.RobustPax Proofs.RobustT3 Proofs.RobustDispatch Proofs.RobustSnep
+  Proofs.PduTotal Proofs.RobustDep Proofs.RobustPax Proofs.RobustT3 Proofs.RobustDispatch Proofs.RobustSnep Model.DepAny Proofs.RobustDepX
   Base.PyPrims Gen.RobustK Gen.SnepK Gen.DepK Bridge.Robust.
 Import ListNotations.
 Open Scope Z_scope.
@@ -33,6 +33,42 @@ Print Assumptions C07_dep_short_frame.
 Theorem C07_dep_rtox_total : forall d, (exists v, rtox_value d = Ok v /\ 0 < v < 60) \/ rtox_value d = Err ProtocolError.
 Proof. exact rtox_total. Qed.
 Print Assumptions C07_dep_rtox_total.
+
+(* --- NFC-DEP exchange layer against an ARBITRARY peer (Model/DepAny.v): the peer's answers are any finite stream of
+       time-outs, corrupted frames and arbitrary byte strings (silence afterwards); configurations are any DID / NAD / RWT /
+       clock tick / deadline with 0 < MIU <= 251 - [DID] - [NAD] (what an ATR can negotiate; needed for the frame length octet).
+       Initiator.exchange returns the received data or raises TimeoutError / TransmissionError / ProtocolError - never another
+       exception, never a hang (the loops' fuel, one more than the answers left, is never used up) - and hands at most
+       (answers left + 3) frames to the frontend: every frame sent consumes an answer, and once the peer is silent the retry
+       budgets (2 ATN, 2 NAK, 3 RTOX rounds) end the exchange after at most 3 more.  (A bound from the budgets alone does not
+       exist: a peer that keeps chaining, or keeps answering ATN, is served until the deadline.) --- *)
+Theorem C07_dep_initiator_exchange_total : forall fuel c s pni payload timeout,
+  cfg_ok c -> corig c = false -> payload <> [] -> (length (ans s) < fuel)%nat ->
+  let r := fst (i_exchange fuel c s pni payload timeout) in
+  let s' := snd (i_exchange fuel c s pni payload timeout) in
+  ((exists data pni', r = Ok (data, pni')) \/ r = Err TimeoutError \/ r = Err TransmissionError \/ r = Err ProtocolError) /\
+  (length (sent s') <= length (sent s) + length (ans s) + 3)%nat /\ (length (ans s') <= length (ans s))%nat.
+Proof. exact dep_initiator_exchange_total. Qed.
+Print Assumptions C07_dep_initiator_exchange_total.
+(* Target.exchange: the data, None (released / nothing received) or a documented error; at most (answers left + 1) calls of
+   the frontend.  `first` is the command injected by activate (first call), otherwise payload <> [] and self.pni is set. *)
+Theorem C07_dep_target_exchange_total : forall fuel c s spni first payload timeout,
+  cfg_ok c -> (first <> None \/ (payload <> [] /\ spni <> None)) -> (length (ans s) + 1 < fuel)%nat ->
+  let r := fst (t_exchange fuel c s spni first payload timeout) in
+  let s' := snd (t_exchange fuel c s spni first payload timeout) in
+  ((exists data pni', r = Ok (Some (data, pni'))) \/ r = Ok None \/
+   r = Err TimeoutError \/ r = Err TransmissionError \/ r = Err ProtocolError) /\
+  (length (sent s') <= length (sent s) + length (ans s) + 1)%nat /\ (length (ans s') <= length (ans s))%nat.
+Proof. exact dep_target_exchange_total. Qed.
+Print Assumptions C07_dep_target_exchange_total.
+(* the code as it was (c07-3) / the seeded regression C07-2: a timeout extension PDU without value in reply to the ACK of a
+   chained response raises IndexError out of Initiator.exchange; the repaired code answers with ProtocolError *)
+Theorem C07_orig_rtox_in_chaining :
+  cfg_ok (ex_cfg true) /\
+  fst (i_exchange 8 (ex_cfg true) (mkst 0 ex_answers []) 0 [0; 0] 1024) = Crash IndexErr /\
+  fst (i_exchange 8 (ex_cfg false) (mkst 0 ex_answers []) 0 [0; 0] 1024) = Err ProtocolError.
+Proof. split; [apply ex_cfg_ok|]. split; [exact orig_rtox_in_chaining | exact fixed_rtox_in_chaining]. Qed.
+Print Assumptions C07_orig_rtox_in_chaining.
 
 (* --- LLCP: pdu.decode returns a PDU or DecodeError for every byte string (C11's theorem restated; in particular no
        RecursionError for any nesting of aggregated frames) --- *)
@@ -203,7 +239,7 @@ Print Assumptions C07_bridge_activate.
 Theorem C07_bridge_pax_cfg sec d s v m w l o :
   use_pax sec (Pax d s v m w l o) =
   (do _ <- lsc_text o; do _ <- dpc_text o;
-   Ok (true, Some (mkcfg (gen_cfg_rcvd_ver v) (gen_cfg_send_miu m) (gen_cfg_recv_lto l) (gen_cfg_send_wks w)
+   Ok (true, Some (Pax.mkcfg (gen_cfg_rcvd_ver v) (gen_cfg_send_miu m) (gen_cfg_recv_lto l) (gen_cfg_send_wks w)
                          (gen_cfg_send_lsc o) (gen_cfg_llcp_dpc sec o)))).
 Proof. intros; apply bridge_pax_cfg; assumption. Qed.
 Print Assumptions C07_bridge_pax_cfg.
